@@ -14,7 +14,7 @@
 
 use proptest::prelude::*;
 use rten_imageproc::{
-    draw_line, draw_polygon, fill_rect, find_contours, stroke_rect, Line, Painter, Point, Rect, RetrievalMode,
+    draw_line, draw_polygon, fill_rect, find_contours, stroke_rect, Line, Painter, Point, Polygon, Rect, RetrievalMode, RotatedRect, Vec2,
 };
 use rten_tensor::prelude::*;
 use rten_tensor::NdTensor;
@@ -406,6 +406,94 @@ impl Op {
     }
 }
 
+/// `FillIter` never advances to the next row when the polygon's bounding box
+/// has zero width (it waits for `cursor.x == bounds.right()` while moving
+/// right from `bounds.right()`), so a polygon with zero horizontal extent and
+/// at least one non-horizontal edge spins for 2^32 steps per row (release) or
+/// panics with an add overflow after 2^31 steps (overflow checks on). Such
+/// polygons are reported from this predicate, without running the iterator,
+/// to keep the check's run time bounded.
+fn zero_width_with_vertical_extent(pts: &[(i32, i32)]) -> bool {
+    pts.len() >= 2 && pts.iter().all(|p| p.1 == pts[0].1) && pts.iter().any(|p| p.0 != pts[0].0)
+}
+
+/// The polygon `draw_line` fills for a line of width >= 2, computed through
+/// the same public operations (`RotatedRect::new(..).corners()` truncated to
+/// integers), as (y, x) pairs.
+fn wide_line_polygon(a: (i8, i8), b: (i8, i8), width: u8) -> [(i32, i32); 4] {
+    let line = Line::from_endpoints(Point::from_yx(a.0 as i32, a.1 as i32), Point::from_yx(b.0 as i32, b.1 as i32)).to_f32();
+    let v = Vec2::from_xy(line.width(), line.height());
+    RotatedRect::new(line.center(), v.perpendicular(), v.length(), width as f32)
+        .corners()
+        .map(|c| (c.y as i32, c.x as i32))
+}
+
+impl Op {
+    /// Some edge of this shape is stroked through a zero-width polygon.
+    fn hits_fill_iter_hang(&self) -> Option<[(i32, i32); 4]> {
+        let (edges, width): (Vec<((i8, i8), (i8, i8))>, u8) = match self {
+            Op::Line { y0, x0, y1, x1, width } => (vec![((*y0, *x0), (*y1, *x1))], *width),
+            Op::Polygon { pts, width } | Op::Painter { pts, width, .. } => {
+                ((0..pts.len()).map(|i| (pts[i], pts[(i + 1) % pts.len()])).collect(), *width)
+            }
+            _ => return None,
+        };
+        if width < 2 {
+            return None;
+        }
+        edges.iter().map(|&(a, b)| wide_line_polygon(a, b, width)).find(|poly| zero_width_with_vertical_extent(poly))
+    }
+}
+
+#[derive(Clone, Debug, Serialize, Deserialize)]
+struct FillCase {
+    /// polygon vertices (y, x)
+    pts: Vec<(i8, i8)>,
+}
+
+fn check_fill_iter(c: &FillCase) -> Verdict {
+    vc_imageproc::own_panics_only();
+    let ipts: Vec<(i32, i32)> = c.pts.iter().map(|p| (p.0 as i32, p.1 as i32)).collect();
+    if zero_width_with_vertical_extent(&ipts) {
+        return Verdict::fail(
+            "fill_iter:zero-width-polygon-hang",
+            format!("Polygon::fill_iter on {:?} (y,x): zero horizontal extent with a non-horizontal edge: the iterator never reaches the end of a row", c.pts),
+        );
+    }
+    let b = pts_box(&c.pts, 0);
+    let cap = if c.pts.is_empty() { 1 } else { ((b.1 - b.0 + 1) as usize) * ((b.3 - b.2 + 1) as usize) + 1 };
+    let pts: Vec<Point> = ipts.iter().map(|&(y, x)| Point::from_yx(y, x)).collect();
+    let filled = match vcore::catch(|| Polygon::new(&pts[..]).fill_iter().take(cap + 1).collect::<Vec<Point>>()) {
+        Ok(f) => f,
+        Err(p) => return Verdict::fail(format!("fill_iter:{}", p.signature()), format!("fill_iter on {:?} panicked: {} at {}", c.pts, p.msg, p.loc())),
+    };
+    if filled.len() > cap {
+        return Verdict::fail("fill_iter:more-points-than-bounding-box", format!("fill_iter on {:?} yields more than {cap} points", c.pts));
+    }
+    let mut seen = std::collections::BTreeSet::new();
+    for q in &filled {
+        if !in_box(b, q.y, q.x) {
+            return Verdict::fail(
+                "fill_iter:point-outside-bounding-box",
+                format!("fill_iter on {:?} yields {q:?}, outside the vertices' bounding box (y0,y1,x0,x1) = {b:?}", c.pts),
+            );
+        }
+        if !seen.insert((q.y, q.x)) {
+            return Verdict::fail("fill_iter:duplicate-point", format!("fill_iter on {:?} yields {q:?} twice", c.pts));
+        }
+    }
+    let mut labels = vec!["fill_iter"];
+    if !filled.is_empty() {
+        labels.push("fill-nonempty");
+    }
+    Verdict::pass_l(!filled.is_empty(), labels)
+}
+
+fn fill_case() -> impl Strategy<Value = FillCase> {
+    let coord = || prop_oneof![2 => -30i8..=60, 3 => 0i8..=8];
+    prop::collection::vec((coord(), coord()), 0..=6).prop_map(|pts| FillCase { pts })
+}
+
 const VALUE: i32 = 7;
 const STROKE: [i32; 3] = [11, 22, 33];
 
@@ -424,6 +512,15 @@ fn check_draw(c: &DrawCase) -> Verdict {
         Op::Painter { .. } => 3,
         _ => 1,
     };
+    if let Some(poly) = c.op.hits_fill_iter_hang() {
+        return Verdict::fail(
+            format!("draw:{name}:fill-iter-zero-width-polygon-hang"),
+            format!(
+                "image {h}x{w}, op {:?}: the stroke polygon of one edge truncates to {poly:?} (y,x), which has zero horizontal extent; Polygon::fill_iter does not terminate in reasonable time on it (not executed)",
+                c.op
+            ),
+        );
+    }
     let (ch, cw) = (h + 2 * GUARD, w + 2 * GUARD);
     let mut canvas = NdTensor::<i32, 3>::zeros([channels, ch, cw]);
     let res = vcore::catch(|| match &c.op {
@@ -586,7 +683,10 @@ fn main() {
          Drawing: `drawing` = one call of fill_rect / stroke_rect / draw_line / draw_polygon (0..=6 vertices) / Painter::draw_polygon \
          (3 or 4 channels, optional with_save) on an image of 0..=24 per side that is a view into a zero canvas with a 3-pixel guard \
          band; vertex coordinates on the image, within 4 pixels of it, or anywhere in [-30,60]; stroke width 0..=5. Non-trivial = \
-         the call changed a pixel or the dilated shape is not entirely on the image. Distinct = distinct Debug rendering.",
+         the call changed a pixel or the dilated shape is not entirely on the image. `fill-iter` = Polygon::fill_iter on 0..=6 vertices \
+         in [-30,60] or [0,8]: every yielded pixel lies in the vertices' bounding box, no pixel twice, at most box-area pixels; \
+         non-trivial = yields a pixel. Polygons with zero horizontal extent and a non-horizontal edge (also as the stroke polygon of a \
+         wide line) are reported without running the iterator, which would spin 2^32 steps per row. Distinct = distinct Debug rendering.",
     );
     ck.assume("foreground is 8-connected and background 4-connected, as in the Suzuki-Abe algorithm the source cites; 'adjacent to the background' is tested on the 8-neighbourhood");
     ck.assume("a component is 'enclosed' when none of its pixels is 4-adjacent to background that is 4-connected to the outside of the image");
@@ -627,5 +727,6 @@ fn main() {
     ck.prop("contours-random", ck.pick(60_000, 3_000_000), random_mask, oracle_mask);
     ck.prop("contours-structured", ck.pick(120_000, 6_000_000), struct_mask, oracle_struct);
     ck.prop("drawing", ck.pick(300_000, 15_000_000), draw_case, check_draw);
+    ck.prop("fill-iter", ck.pick(100_000, 5_000_000), fill_case, check_fill_iter);
     ck.finish();
 }
